@@ -167,10 +167,15 @@ def layout_strategy():
         lambda t: ['cap', t[0], ['cat', 'class', [t[2], ['cap', t[1], t[3], t[5]]]], t[4]])
     opt = st.tuples(st.one_of(cap, nested), st.booleans()).map(lambda t: ['q', 'opt', 'class', t[0], 0, None, t[1]])
     alt = st.tuples(cap, cap).map(lambda t: ['alt', 'class', [t[0], t[1]]])
-    item = st.one_of(cap, cap, cap, nested, opt, opt, alt, atom)
+    # captures inside lookarounds, attached to a match that may be zero-width (the (?=(..)) "overlapping matches" idiom)
+    zero = st.sampled_from([['empty', 0], ['wb'], ['q', 'opt', 'class', ['lit', 'q', True], 0, None, True], ['q', 'star', 'method', ['lit', 'a', False], 0, None, False],
+                            ['lit', 'a', True]])
+    look = st.tuples(st.sampled_from(['fb', 'fb', 'pb', 'eb', 'nfb']), sp, zero, st.one_of(cap, nested)).map(lambda t: ['look', t[0], t[1], t[2], [t[3]]])
+    item = st.one_of(cap, cap, cap, nested, opt, opt, alt, atom, look)
+    solo_look = look.map(lambda x: dsl.uniquify_names(x))
     many = st.tuples(st.sampled_from([9, 10, 11, 12, 20, 33, 64, 99, 100, 101, 120]), st.integers(0, 2 ** 16)).map(_many_groups)
     return st.one_of(st.lists(item, min_size=2, max_size=5).map(lambda xs: dsl.uniquify_names(['cat', 'class', xs])),
-                     st.lists(item, min_size=2, max_size=5).map(lambda xs: dsl.uniquify_names(['cat', 'class', xs])), many)
+                     st.lists(item, min_size=2, max_size=5).map(lambda xs: dsl.uniquify_names(['cat', 'class', xs])), many, solo_look)
 
 
 def strategy(spec, ctx):
